@@ -78,3 +78,24 @@ func errors_Is(err, target error) bool
 `},
 	{name: "SqlToken", dir: "db", file: "state.go", funcs: []string{"isSQLSpace", "isSQLIDChar", "asciiLower", "sqlToken", "IsBreakingPragma"}, bytestr: true, join: true},
 }
+
+// layouts: the struct layouts the lemmas were written against ("Unit.Struct" -> field:GallinaType in the order of the
+// generated Record).  A struct of the tree is matched against its layout first by field name; fields that are left
+// over on both sides (a rename) are paired in order when their types agree.  The generated Record always uses the
+// names and the order given here, so renaming or reordering fields does not change the generated definitions.
+var layouts = map[string]string{
+	"Auth.CredentialsStore":       "store:alist string, perms:alist (alist bool)",
+	"Cas.CheckAndSet":             "state:bool, owner:string, startT:Z",
+	"CasRetry.CheckAndSet":        "state:bool, owner:string, startT:Z",
+	"Marshal.RequestMarshaler":    "BatchThreshold:Z, SizeThreshold:Z, ForceCompression:bool",
+	"Mrsw.MultiRSW":               "owner:string, numReaders:Z",
+	"Queue.queuedObjects":         "SequenceNumber:Z, Objects:list T, flushChan:FlushChannel",
+	"Queue.Request":               "SequenceNumber:Z, Objects:list T, flushChans:list FlushChannel",
+	"ReadyTarget.Subscriber":      "target:T, ch:chan_T",
+	"ReadyTarget.ReadyTarget":     "currentTarget:T, subscribers:list Subscriber",
+	"SnapshotSet.Snapshot":        "id:string, path:string, typ:Z, raftMeta:raft_SnapshotMeta, dbFile:ChecksummedFile, walFiles:list ChecksummedFile",
+	"SnapshotSet.SnapshotSet":     "dir:string, items:list Snapshot",
+	"Throttler.Throttler":         "delayFactor:Z, delays:list Z, releaseRate:Z, idleTimeout:Z, timer:option time_Timer",
+	"Uploader.Uploader":           "storageClient:StorageClient, dataProvider:DataProvider, interval:Z, logger:option log_Logger, lastUploadTime:Z, lastUploadDuration:Z, lastIndex:Z",
+	"WalResetWatch.WALResetWatch": "armed:bool, salt:wal_Salt, resumeFrameIdx:Z",
+}
